@@ -429,6 +429,22 @@ def run(ctx: Ctx, tier: str) -> Result:
                 res.ok("C05.WIRE", {tg.attr: src[0]})
             else:
                 res.fail(Finding("C05.WIRE", cc.qname, n, cc.loc(n), "limit %s is not read from key %s with its own default: %s" % (tg.attr, key, src)))
+    # the limits of one collection are written into an object made for it: a configuration object kept on the class / module
+    # and filled in again is one object for every collection going on, so a collection in progress on another thread reads
+    # the limits of the tracepoint that asked last
+    bases_ = {tg_.value.id for n in t.nodes_in(cc, ast.Assign) for tg_ in [n.targets[0]]
+              if isinstance(tg_, ast.Attribute) and tg_.attr.startswith("max_") and isinstance(tg_.value, ast.Name)}
+    for b_ in sorted(bases_):
+        binds_ = t.local_bindings(cc, b_)
+        fresh_ = bool(binds_) and all(k_ == "assign" and isinstance(v_[1], ast.Call) and t.resolve_call(v_[1], cc).ctor for k_, v_ in binds_)
+        if fresh_:
+            res.ok("C05.WIRE", {"limits written into an object created by this call": b_})
+        else:
+            bad_ = [v_[1] for k_, v_ in binds_ if k_ == "assign" and v_[1] is not None]
+            res.fail(Finding("C05.WIRE", cc.qname, bad_[0] if bad_ else b_, cc.loc(bad_[0]) if bad_ else cc.loc(), "the limits are written into `%s`, which is not an object created by this call (`%s`): "
+                             "collections in progress share it and pick up one another's limits" % (b_, norm(bad_[0])[:50] if bad_ else "?")))
+    if not bases_:
+        res.fail(Finding("C05.WIRE", cc.qname, "<config.max_* = ...>", cc.loc(), "the limits are not written into a local configuration object"))
     wired_names = {n.targets[0].attr for n in t.nodes_in(cc, ast.Assign) if isinstance(n.targets[0], ast.Attribute) and n.targets[0].attr.startswith("max_")}
     for lim in ("max_string_length", "max_collection_size", "max_variables", "max_var_depth"):
         if lim not in wired_names:
